@@ -49,10 +49,6 @@ func uvar(body []byte) []byte {
 // carrier types the harness framer can hand to the format codec's read side.
 var carrierNames = []string{"bytes", "byteslices", "string", "bytes.Buffer", "bytes.Reader", "strings.Reader", "plain-reader", "bufio-over-bytes.Reader", "bufio-over-plain-reader"}
 
-const (
-	carBufioPlain = 8
-)
-
 var frameCfgs = func() []frameCfg {
 	l := []frameCfg{
 		{name: "none", none: true, carrier: -1, handler: nil, wire: func(b []byte) []byte { return append([]byte{}, b...) }},
